@@ -83,6 +83,8 @@ Proof.
   - intros p Hp l w i e Hl He Hb. destruct p as [|[|[|p]]]; try lia; vm_compute in He; try contradiction; destruct He as [He|[]]; subst e;
       (destruct l as [|[|l]]; cbn in Hl; try discriminate Hl; [| |destruct l; discriminate Hl]; injection Hl as Hl; subst w;
        (destruct i as [|[|i]]; [vm_compute in Hb; discriminate Hb | reflexivity | destruct i; vm_compute in Hb; discriminate Hb])).
+  - intros p Hp i e He Hb. destruct p as [|[|[|p]]]; try lia; vm_compute in He; try contradiction; destruct He as [He|[]]; subst e;
+      (destruct i as [|[|i]]; [vm_compute in Hb; discriminate Hb | reflexivity | destruct i; vm_compute in Hb; discriminate Hb]).
   - intros p Hp e b He Hs. destruct p as [|[|[|p]]]; try lia; vm_compute in He; try contradiction; destruct He as [He|[]]; subst e;
       vm_compute in Hs; discriminate Hs.
   - intros p Hp. destruct p as [|[|[|p]]]; try lia; vm_compute; lia.
@@ -155,6 +157,8 @@ Proof.
   - intros p Hp l w i e Hl He Hb. destruct p as [|[|[|p]]]; try lia; vm_compute in He; try contradiction; destruct He as [He|[]]; subst e;
       (destruct l as [|[|l]]; cbn in Hl; try discriminate Hl; [| |destruct l; discriminate Hl]; injection Hl as Hl; subst w;
        (destruct i as [|[|i]]; [reflexivity | vm_compute in Hb; discriminate Hb | destruct i; vm_compute in Hb; discriminate Hb])).
+  - intros p Hp i e He Hb. destruct p as [|[|[|p]]]; try lia; vm_compute in He; try contradiction; destruct He as [He|[]]; subst e;
+      (destruct i as [|[|i]]; [reflexivity | vm_compute in Hb; discriminate Hb | destruct i; vm_compute in Hb; discriminate Hb]).
   - intros p Hp e b He Hs. destruct p as [|[|[|p]]]; try lia; vm_compute in He; try contradiction; destruct He as [He|[]]; subst e;
       vm_compute in Hs; discriminate Hs.
   - intros p Hp. destruct p as [|[|[|p]]]; try lia; vm_compute; lia.
